@@ -114,10 +114,22 @@ def c16(run):
             c2["in"]["byHash"] = True
             extra.append(c2)
             nhash += 1
+    # replay-only variants (same prediction): the first single-header request fails and Start is called again; a second
+    # Head() caller while Start is still fetching the tail header of an empty store
+    nretry = 0
+    for c in list(cases):
+        i_ = c["in"]
+        # (empty stores only: on a running store a failed tail renewal is legitimately retried with the next newer head only)
+        if i_["tail"] == 0 and c["allowed"] and not c["kf"] and c["predicted"]["kind"] == "ok" and rnd.random() < (0.25 if quick else 1.0):
+            c2 = copy.deepcopy(c)
+            c2["in"]["retry" if rnd.random() < 0.5 else "concHead"] = True
+            extra.append(c2)
+            nretry += 1
+    run.cov["retry_concHead_variants"] = nretry
     deep = deep_tail_rows(quick)
     cases = cases + extra + deep
     run.cov["deep_move_down_rows"] = len(deep)
-    run.cov["tpSmall_variants"] = len(extra) - nhash
+    run.cov["tpSmall_variants"] = len(extra) - nhash - nretry
     run.cov["byHash_variants"] = nhash
     for i, c in enumerate(cases):
         c["id"] = i
